@@ -100,6 +100,11 @@ Definition scoped_stmt_mono := proj2 (proj2 (proj2 scoped_mono_all)).
 Definition bspec (R : list N) (m m' : N) (L : list N) : Prop :=
   NoDup L /\ forall b, In b L -> In b R \/ (m < b <= m').
 
+Lemma not_in_app : forall (X : Type) (x : X) l1 l2, ~ In x (l1 ++ l2) -> ~ In x l1 /\ ~ In x l2.
+Proof. intros X x l1 l2 H; split; intro; apply H; apply in_or_app; auto. Qed.
+Lemma not_in_cons' : forall (X : Type) (x y : X) l, ~ In x (y :: l) -> x <> y /\ ~ In x l.
+Proof. intros X x y l H; split; intro; apply H; simpl; auto. Qed.
+
 Ltac pose_new H :=
   let T := type of H in
   lazymatch goal with
@@ -115,6 +120,8 @@ Ltac lnorm :=
          | H : NoDup (_ :: _) |- _ => apply NoDup_cons_iff in H; destruct H
          | H : mem_le _ (_ ++ _) |- _ => apply mem_le_app in H; destruct H
          | H : mem_le _ (_ :: _) |- _ => apply mem_le_cons in H; destruct H
+         | H : ~ In _ (_ ++ _) |- _ => apply not_in_app in H
+         | H : ~ In _ (_ :: _) |- _ => apply not_in_cons' in H
          | H : In _ (_ ++ _) |- _ => apply in_app_or in H
          | H : In _ (_ :: _) |- _ => simpl in H
          | H : In _ [] |- _ => destruct H
@@ -132,10 +139,10 @@ Ltac lsat :=
 Ltac lfin :=
   subst;
   try lia;
-  try solve [exfalso; eauto];
-  try solve [left; repeat (rewrite in_app_iff); simpl; tauto];
+  try solve [exfalso; eauto with datatypes];
+  try solve [left; simpl; repeat (rewrite in_app_iff); simpl; tauto];
   try solve [right; lia];
-  try solve [repeat (rewrite in_app_iff); simpl; tauto].
+  try solve [simpl; repeat (rewrite in_app_iff); simpl; tauto].
 
 Ltac lsolve := lnorm; lsat; lnorm; lsat; lnorm; lfin.
 
@@ -171,3 +178,25 @@ Proof. intros. bspec_tac. Qed.
 Lemma bspec_cons_keep : forall T R v m m' L,
   bspec R m m' L -> NoDup (v :: R) -> mem_le T (v :: R) -> T <= m -> bspec (v :: R) m m' (v :: L).
 Proof. intros. bspec_tac. Qed.
+
+(* NoDup / mem_le side conditions of sub-lists *)
+Ltac ndsolve :=
+  repeat match goal with
+         | H : NoDup (_ ++ _) |- _ => apply NoDup_app_iff in H; destruct H as (? & ? & ?)
+         | H : NoDup (_ :: _) |- _ => apply NoDup_cons_iff in H; destruct H
+         | H : mem_le _ (_ ++ _) |- _ => apply mem_le_app in H; destruct H
+         | H : mem_le _ (_ :: _) |- _ => apply mem_le_cons in H; destruct H
+         | |- NoDup (_ ++ _) => apply NoDup_app_iff; split; [|split]
+         | |- NoDup (_ :: _) => apply NoDup_cons_iff; split
+         | |- NoDup [] => constructor
+         | |- mem_le _ (_ ++ _) => apply mem_le_app; split
+         | |- mem_le _ (_ :: _) => apply mem_le_cons; split
+         | |- mem_le _ [] => apply mem_le_nil
+         end; auto; try lia;
+  try (intros;
+       repeat match goal with
+              | |- ~ _ => intro
+              | H : In _ (_ ++ _) |- _ => apply in_app_or in H; destruct H
+              | H : In _ (_ :: _) |- _ => destruct H; [subst|]
+              | H : In _ [] |- _ => destruct H
+              end; solve [eauto 6 with datatypes | exfalso; eauto 6 with datatypes]).
